@@ -214,7 +214,8 @@ def record_histogram(log):
     def wrapped(a, bins=10, range=None, *args, **kw):
         r = orig(a, bins=bins, range=range, *args, **kw)
         try:
-            log.append({"bins": int(bins), "counts": [int(x) for x in r[0]]})
+            log.append({"bins": int(bins), "counts": [int(x) for x in r[0]],
+                        "data": sorted(float(x) for x in np.asarray(a, dtype=float).ravel())})
         except Exception:
             log.append(None)
         return r
@@ -249,11 +250,27 @@ def run_hdm(case, data):
         tb = int(det.total_batches)
         first = log[:2 * k]
         ok = len(first) == 2 * k and all(x is not None for x in first)
+        hists = None
+        if ok:
+            # attribute each logged histogram to "column f of the reference" / "column f of the batch" by the data it was
+            # computed from, not by the order of the calls
+            used, hists = set(), []
+            for f in range(k):
+                pair = []
+                for col in (sorted(r[f] for r in ref_before), sorted(float(r[f]) for r in b)):
+                    j = next((j for j, e in enumerate(first) if j not in used and e["data"] == col), None)
+                    if j is None:
+                        break
+                    used.add(j); pair.append(first[j]["counts"])
+                if len(pair) != 2:
+                    hists = None
+                    break
+                hists.append(pair)
         rows.append({"ds": ds, "total": tot, "since": sin, "dist": fl(getattr(det, "current_distance", None)),
                      "eps": fl(det.epsilon_values.get(tb)), "beta": fl(det.thresholds.get(tb)),
                      "ref_n": int(det.reference_n), "ref_before": ref_before,
                      "bins": first[0]["bins"] if ok else None,
-                     "hists": [[first[f]["counts"], first[k + f]["counts"]] for f in range(k)] if ok else None})
+                     "hists": hists})
     ref_end = np.asarray(det.reference, dtype=float).reshape(-1, k).tolist()
     return {"rows": rows, "distances": [[int(a), float(v)] for a, v in det.distances.items()], "ref_end": ref_end}
 
